@@ -12,14 +12,32 @@ def main(path):
     prop = doc["property"]
     cli.load_contracts(prop)
     try:
+        if doc.get("native_check") and str(doc["native_check"]).startswith("domain:"):
+            # a failure of a contract's clauses on its native bounded domain: run that very case again
+            tgt = doc["native_check"][len("domain:"):]
+            c = [x for x in C.BY_PROP[prop] if x.target == tgt and x.verify][0]
+            r = native.run_case(c, dict(modelval.from_json(doc["inputs"])))
+            print("REPLAY " + json.dumps(r, default=str))
+            return
         if doc.get("native_check"):
             chk = [n for n in C.NATIVE_CHECKS.get(prop, []) if n["name"] == doc["native_check"]][0]
             rep = getattr(chk["fn"], "replay", None)
-            if rep is None:
-                print("REPLAY " + json.dumps({"status": "error", "detail": "native check has no replay"}))
+            if rep is not None:
+                r = rep(modelval.from_json(doc["inputs"]))
+                print("REPLAY " + json.dumps(r, default=str))
                 return
-            r = rep(modelval.from_json(doc["inputs"]))
-            print("REPLAY " + json.dumps(r, default=str))
+            # generic: run the check again on this tree and look for the same failing input among what it reports
+            import os
+
+            res = chk["fn"](doc.get("tier", "quick"), int(os.environ.get("VERIF_SEED", "0") or 0))
+            same = [f for f in res.get("failures", []) if json.dumps(f.get("inputs"), sort_keys=True, default=str) == json.dumps(doc.get("inputs"), sort_keys=True, default=str)]
+            if same:
+                print("REPLAY " + json.dumps({"status": "reproduced", "inputs": doc.get("inputs"), "observed": same[0].get("observed")}, default=str))
+            elif res.get("failures"):
+                print("REPLAY " + json.dumps({"status": "other-failures", "detail": "the check fails on this tree, but its first %d reported inputs do not include this one" % len(res["failures"]),
+                                              "first": res["failures"][0]}, default=str))
+            else:
+                print("REPLAY " + json.dumps({"status": "not-reproduced", "detail": "the check passes on this tree (%s evaluations)" % res.get("evaluations")}, default=str))
             return
         c = [x for x in C.BY_PROP[prop] if x.target == doc["target"]][0]
         if c.replay is None and ("." in c.target.split("::")[1] or c.externals or c.globals or c.is_generator_hint):
